@@ -19,6 +19,10 @@ CRATE = os.path.join(ROOT, "replay")
 TARGET = os.path.join(ROOT, "build", "replay-target")
 
 MONITORS = {
+    "C18": {"bin": "mon_c18", "quick": 50000, "thorough": 3000000,
+            "what": "real raft::Inflights vs the bounded-FIFO model under random sequences of add/free_to/free_first_one/reset/set_cap/maybe_free_buffer (cap 0..5, <= 14 ops)"},
+    "C19": {"bin": "mon_c19", "quick": 20000, "thorough": 600000,
+            "what": "real MemStorage vs the (snapshot point + contiguous entries) model under random contract-abiding append/compact/apply_snapshot/commit_to sequences; first/last/term/entries/snapshot compared after every step"},
     "C11": {"bin": "mon_c11", "quick": 20000, "thorough": 600000,
             "what": "ProgressTracker::maximal_committed_index / tally_votes of the real crate vs the count-based quorum definitions, "
                     "voter sets of 1..10 members, joint configurations, group commit"},
